@@ -6,6 +6,7 @@ receiver expression:
    local   - a name bound in the function to a fresh list / dict / str / comprehension / literal
    rule    - `self.<field>` inside class Rule (per-call state of the freshly built Rule object)
    caller  - a parameter that is a caller-owned collector list (errs, descendants, warnings, evaluation …)
+   module  - a field / item of a module-level object of the package (private cache, thread-local, table)
    tree    - anything else: a parameter / attribute that can reach a node of the tree or the registry
 Only `tree` sites threaten the property.  The classification is a heuristic of this translator (trusted base)."""
 import ast, os
@@ -44,6 +45,7 @@ def functions_of(tree):
                     # a property setter runs only through an attribute assignment, which is a write site of the assigning code
                     if any(isinstance(d, ast.Attribute) and d.attr in ("setter", "deleter") for d in m.decorator_list):
                         continue
+                    m._owner = n.name
                     out.setdefault(f"{n.name}.{m.name}", (m, n.name))
     return out
 
@@ -58,17 +60,20 @@ PACKAGE_CLASSES = set()      # classes defined in the package other than Node (f
 COLLECTOR_PARAMS = set()     # (module, function, parameter): every call site in the package passes a fresh local / a collector of the caller
 
 
+MODULE_GLOBALS = {}          # module -> names bound by module-level statements (private caches, tables, compiled patterns)
 FRESH_RETURNING = set()      # simple names of package functions all of whose definitions return only fresh objects
 
 
-def is_fresh_expr(v, fresh):
+def is_fresh_expr(v, fresh, owner=None):
     if isinstance(v, (ast.List, ast.Dict, ast.ListComp, ast.DictComp, ast.SetComp, ast.Constant, ast.JoinedStr, ast.BinOp, ast.Tuple, ast.Set)):
         return True
     if isinstance(v, ast.Name):
         return v.id in fresh
     if isinstance(v, ast.IfExp):
-        return is_fresh_expr(v.body, fresh) and is_fresh_expr(v.orelse, fresh)
+        return is_fresh_expr(v.body, fresh, owner) and is_fresh_expr(v.orelse, fresh, owner)
     if isinstance(v, ast.Call):
+        if isinstance(v.func, ast.Name) and v.func.id == "cls" and owner not in (None, "Node"):
+            return True                # `cls()` in a classmethod of a non-tree class of the package
         if isinstance(v.func, ast.Name):
             return v.func.id in FRESH_CALLS or v.func.id in PACKAGE_CLASSES or v.func.id in FRESH_RETURNING
         if isinstance(v.func, ast.Attribute):
@@ -117,7 +122,7 @@ def fresh_locals(fn):
         for name, vals in binds.items():
             if name in fresh or name in tainted or name in params:
                 continue
-            if all(is_fresh_expr(v, fresh) for v in vals):
+            if all(is_fresh_expr(v, fresh, getattr(fn, "_owner", None)) for v in vals):
                 fresh.add(name); changed = True
     return fresh
 
@@ -144,7 +149,7 @@ def compute_fresh_returning(mods):
                 if not rets:
                     ok = False; break
                 fl = fresh_locals(fn)
-                if not all(is_fresh_expr(r.value, fl) and not (isinstance(r.value, ast.Constant) and False) for r in rets):
+                if not all(is_fresh_expr(r.value, fl, getattr(fn, "_owner", None)) for r in rets):
                     ok = False; break
             if not ok:
                 FRESH_RETURNING.discard(name); changed = True
@@ -194,6 +199,13 @@ def classify(target_expr, fn, cls, fresh, depth=0, where=None):
         return "caller"
     if where is not None and (where[0], where[1], r) in COLLECTOR_PARAMS:
         return "caller"
+    if where is not None and r in MODULE_GLOBALS.get(where[0], ()) and r not in param_names(fn) and r not in alias_map(fn):
+        # a module-level object of the package (a cache, a thread-local, a table): its own fields / items only
+        e = target_expr
+        while isinstance(e, ast.Subscript):
+            e = e.value
+        if isinstance(e, ast.Name) or (isinstance(e, ast.Attribute) and isinstance(e.value, ast.Name)):
+            return "module"
     return "tree"
 
 
@@ -351,6 +363,9 @@ def inventory(repo):
                 continue
             mods[rel] = functions_of(tr)
             modrefs[rel] = module_level_refs(tr)
+            MODULE_GLOBALS[rel] = {tt.id for n in tr.body if isinstance(n, (ast.Assign, ast.AnnAssign))
+                                   for t0 in (n.targets if isinstance(n, ast.Assign) else [n.target])
+                                   for tt in ast.walk(t0) if isinstance(tt, ast.Name)}
     PACKAGE_CLASSES.clear(); COLLECTOR_PARAMS.clear()
     for rel, tr_fns in mods.items():
         pass
